@@ -22,8 +22,9 @@ fn make_doc(text: &str, lang: &str) -> Document {
 }
 
 /// curated + user words of many lengths that share prefixes (technical vocabulary)
-pub const USER_WORDS: [&str; 14] = ["autograd", "autodiff", "reparameterization", "reparam", "hyperparameterisations", "hyperopt", "backprop",
-    "backpropagating", "tokenizer", "tokenizations", "embeddingbag", "embed", "qwertzuiopasdfgh", "zx"];
+// (the kubect* words are all at the same distance from `kubectz`: ties)
+pub const USER_WORDS: [&str; 20] = ["autograd", "autodiff", "reparameterization", "reparam", "hyperparameterisations", "hyperopt", "backprop",
+    "backpropagating", "tokenizer", "tokenizations", "embeddingbag", "embed", "qwertzuiopasdfgh", "zx", "kubectl", "kubectx", "kubecta", "kubectb", "kubectc", "kubectd"];
 fn user_dict() -> std::sync::Arc<harper_core::MergedDictionary> {
     use harper_core::{MergedDictionary, MutableDictionary, WordMetadata};
     static D: std::sync::OnceLock<std::sync::Arc<MergedDictionary>> = std::sync::OnceLock::new();
@@ -35,6 +36,16 @@ fn user_dict() -> std::sync::Arc<harper_core::MergedDictionary> {
         m.add_dictionary(std::sync::Arc::new(user));
         std::sync::Arc::new(m)
     }).clone()
+}
+/// the same words in a dictionary object of its own (whatever is particular to an instance - hash seeds - is new)
+fn user_dict_fresh() -> std::sync::Arc<harper_core::MergedDictionary> {
+    use harper_core::{MergedDictionary, MutableDictionary, WordMetadata};
+    let mut user = MutableDictionary::new();
+    user.extend_words(USER_WORDS.iter().map(|w| (w.chars().collect::<Vec<char>>(), WordMetadata::default())));
+    let mut m = MergedDictionary::new();
+    m.add_dictionary(FstDictionary::curated());
+    m.add_dictionary(std::sync::Arc::new(user));
+    std::sync::Arc::new(m)
 }
 fn make_doc_user(text: &str, lang: &str) -> Document {
     let dict = user_dict();
@@ -79,8 +90,10 @@ fn fresh_lints_d(text: &str, lang: &str, cfg: &LintGroupConfig, dialect: Dialect
     let (text, lang, cfg) = (text.to_string(), lang.to_string(), cfg.clone());
     let h = std::thread::Builder::new().stack_size(16 << 20).spawn(move || {
         if user {
-            let mut lg = LintGroup::new_curated(user_dict(), dialect).with_lint_config(cfg);
-            return lg.lint(&make_doc_user(&text, &lang));
+            let d = user_dict_fresh();
+            let mut lg = LintGroup::new_curated(d.clone(), dialect).with_lint_config(cfg);
+            let doc = match lang.as_str() { "md" => Document::new(&text, &Markdown::default(), &d), _ => Document::new(&text, &PlainEnglish, &d) };
+            return lg.lint(&doc);
         }
         let mut lg = LintGroup::new_curated(FstDictionary::curated(), dialect).with_lint_config(cfg);
         lg.lint(&make_doc(&text, &lang))
@@ -258,6 +271,7 @@ pub fn c05(a: &Args) {
                     _ => { let keep = rng.range(2, w.len().min(8)).min(w.len()); let extra = (w.len() - keep) + rng.range(2, 4);
                            w[..keep].iter().cloned().chain((0..extra).map(|_| *rng.pick(&letters[..]))).collect() }
                 };
+                let unknown = if rng.chance(1, 5) { "kubectz".to_string() } else { unknown };
                 let text = match rng.below(3) { 0 => format!("We train a small {unknown} first."), 1 => format!("The {unknown} trick keeps the gradient."), _ => unknown };
                 ops.push(("lint".to_string(), 0, text, if rng.chance(1, 4) { "md".into() } else { "plain".into() }));
             }
